@@ -175,6 +175,9 @@ func stressSpec(rng *rand.Rand, k int) (*core.Spec, *core.Model) {
 func runC09(c *eng.Ctx) {
 	idxN := 0
 	next := func() (int, bool) { i := idxN; idxN++; return i, c.Mine(i) }
+	// godi's internal yield points (build tag verif) perturb the schedule between its critical sections
+	rt.SetNoise(120)
+	defer func() { rt.SetNoise(0); c.R.Count("internal_yield_points_passed", rt.YieldCount()) }()
 	runC09Stress(c, next)
 	runC09Sched(c, next)
 	runC09SharedCode(c, next)
